@@ -107,6 +107,21 @@ Section KK.
   Definition all_combinations (b1 b2 : bins A) : list (bins A) :=
     dedup_combos [] (map (combo_of_perm b1 b2) (perms (length b1))).
 
+  (** De-duplication of the children of a search node by their SUMS (repair "fix: complete Karmarkar-Karp explored different
+      trees with the two bins-managers"): in complete_karmarkar_karp_sy.py the loop over binner.all_combinations(bins1, bins2)
+      skips a combination whose tuple of (ascending) sums was already seen at this node, so the search tree depends on the
+      sums only, whichever bins-manager is used. *)
+  Fixpoint dedup_sums (seen : list (list Z)) (l : list (bins A)) : list (bins A) :=
+    match l with
+    | [] => []
+    | b :: t =>
+        let key := sums b in
+        if existsb (list_eqb Z.eqb key) seen then dedup_sums seen t
+        else b :: dedup_sums (key :: seen) t
+    end.
+
+  Definition ckk_children (b1 b2 : bins A) : list (bins A) := dedup_sums [] (all_combinations b1 b2).
+
   (** ---- CKK ---- *)
   Definition heap_flat_sums (h : heap) : list Z := flat_map (fun e => sums (snd e)) h.
 
@@ -152,7 +167,7 @@ Section KK.
         match fuel with
         | O => st
         | S f =>
-            let children := map (heap_push rest) (all_combinations (snd e1) (snd e2)) in
+            let children := map (heap_push rest) (ckk_children (snd e1) (snd e2)) in
             let sorted := sort_asc topdiff children in
             fold_left (fun s c => ckk_explore f mode_best k c s) (rev sorted) st
         end
